@@ -91,7 +91,7 @@ def check_pcacd(case, ctx):
         ctx.label("ph-threshold>0")
     if round(p["sample_period"] * p["window_size"]) > 100:
         ctx.label("step-capped-at-100")
-    ctx.label(f"metric={p['divergence_metric']}", f"scaling={p['online_scaling']}", f"num_pcs={min(m.num_pcs or 0, 3)}", f"drifts={min(ndrift, 2)}")
+    ctx.label(f"metric={p['divergence_metric']}", f"scaling={p['online_scaling']}", f"num_pcs={min(m.num_pcs or 0, 3)}", ("num_pcs>=10" if (m.num_pcs or 0) >= 10 else None), f"drifts={min(ndrift, 2)}")
     if ndrift >= 1 and "score-in-second-epoch" in ctx.labels:
         ctx.label("nontrivial")
 
@@ -119,7 +119,12 @@ def strat_pcacd(tier):
     def s(draw):
         p = draw(pca_params())
         w = p["window_size"]
-        d = draw(st.integers(2, 4))
+        d = draw(st.sampled_from([2, 2, 3, 3, 4, 4, 6, 11, 12]))
+        if d >= 11:
+            p["ev_threshold"] = draw(st.sampled_from([0.99, 0.999]))
+            p["window_size"] = w = max(w, 30)
+            if round(p["sample_period"] * w) < 1:
+                p["sample_period"] = 0.5
         flavour = draw(st.sampled_from(["shifts", "shifts", "shifts", "repeat"]))
         cell = st.integers(-16, 16)
         if flavour == "repeat":
@@ -160,7 +165,7 @@ PROPERTY = {
     "id": "C11",
     "level": "exploration",
     "rule": (
-        "Hypothesis streams of 3-6 window lengths with 2-4 features: 2-5 segments with their own level, mixing matrix (correlation) and "
+        "Hypothesis streams of 3-6 window lengths with 2-12 features (10+ retained components occur): 2-5 segments with their own level, mixing matrix (correlation) and "
         "scale, or the reference window repeated 3-5 times (then a shifted tail) x window_size 8..250 (>= 50: positive inner threshold; 250 x 0.5: check period capped at 100) x ev_threshold {.5,.9,.99,.999} x delta x "
         "metric {kl, intersection} x sample_period (step >= 1) x online_scaling on/off. After every update drift_state, samples_since_reset, "
         "num_pcs and the score history (_change_score, when present; 1e-9) are compared with the reference model (own windows, schedule, "
